@@ -997,62 +997,110 @@ theorem act_ok (C : Crypto) (hC : HashWF C) (hT : TreeWF C) (bs : Array Bytes) (
     rw [hh]
     exact ⟨c1, e, j0, hk⟩
 
-/-- the replica states reachable from a state that satisfies the invariants by honest exchanges, close/reopen and
-    **crashes at any storage operation of an exchange followed by a reopen** -/
+/-- first contact as an exchange step, from any state of length 0 that satisfies the invariants -/
+theorem first_ok0 (C : Crypto) (hC : HashWF C) (hT : TreeWF C) (bs : Array Bytes) (c : Core) (d : Disk) (held : Nat → Bool)
+    (h : RP C bs 0 c d held) (n : Nat) (h0 : 0 < n) (hn : n ≤ bs.size) (sig : Bytes) (hsl : sig.length = 64)
+    (hver : C.verify c.publicKey (signableAt C bs n c.tree.fork) sig = true) :
+    held = (fun _ => false) ∧
+    ∃ c1 e j0, StepOK C bs 0 n c c1 d (fun _ => false) (fun _ => false) (c.verifyAndApply C d (honestFirst C bs c.tree.fork n sig)) e j0 := by
+  have hheld : held = (fun _ => false) := by
+    funext i
+    cases hh : held i with
+    | false => rfl
+    | true => have := h.rep.heldLt i hh; omega
+  have hsz := size_extract bs n hn
+  have hs' : (bs.extract 0 n).size < 2 ^ 64 ∧ psum (bs.extract 0 n) (bs.extract 0 n).size < 2 ^ 64 := by
+    rw [hsz, psum_extract bs n hn n (Nat.le_refl _)]
+    have := psum_mono bs hn
+    have := h.rep.small
+    omega
+  have hfresh := fresh_of_reprAt0 C bs (bs.extract 0 n) hs' c d held h.rep
+  exact ⟨hheld, first_ok C hC hT bs ⟨h.size, h.rep.small.2⟩ n h0 hn c d hfresh sig hsl hver⟩
+
+/-- the replica states reachable from a state that satisfies the invariants (e.g. a freshly created replica) by first
+    contact, honest exchanges, close/reopen and **crashes at any storage operation of an exchange (first contact
+    included) followed by a reopen** -/
 inductive Reach (C : Crypto) (bs : Array Bytes) (pk : Bytes) (fork : Nat) : Core × Disk → Prop
-  | start (c : Core) (d : Disk) (m : Nat) (held : Nat → Bool) : RP C bs m c d held → 0 < m → c.publicKey = pk → c.tree.fork = fork →
+  | start (c : Core) (d : Disk) (m : Nat) (held : Nat → Bool) : RP C bs m c d held → c.publicKey = pk → c.tree.fork = fork →
       Reach C bs pk fork (c, d)
-  | act (c : Core) (d : Disk) (a : Act) : Reach C bs pk fork (c, d) → OkActs C bs pk fork c.tree.length [a] →
+  | first (c : Core) (d : Disk) (n : Nat) (sig : Bytes) : Reach C bs pk fork (c, d) → c.tree.length = 0 → 0 < n → n ≤ bs.size →
+      sig.length = 64 → C.verify pk (signableAt C bs n fork) sig = true →
+      Reach C bs pk fork ((c.verifyAndApply C d (honestFirst C bs c.tree.fork n sig)).core, d.applyAll (c.verifyAndApply C d (honestFirst C bs c.tree.fork n sig)).journal)
+  | crashFirst (c : Core) (d : Disk) (n : Nat) (sig : Bytes) (k : Nat) (c' : Core) (j : List SOp) : Reach C bs pk fork (c, d) →
+      c.tree.length = 0 → 0 < n → n ≤ bs.size → sig.length = 64 → C.verify pk (signableAt C bs n fork) sig = true →
+      openCore C none (d.applyAll ((c.verifyAndApply C d (honestFirst C bs c.tree.fork n sig)).journal.take k)) = .ok (c', j) →
+      Reach C bs pk fork (c', (d.applyAll ((c.verifyAndApply C d (honestFirst C bs c.tree.fork n sig)).journal.take k)).applyAll j)
+  | act (c : Core) (d : Disk) (a : Act) : Reach C bs pk fork (c, d) → 0 < c.tree.length → OkActs C bs pk fork c.tree.length [a] →
       Reach C bs pk fork ((c.verifyAndApply C d (actProof C bs c d a)).core, d.applyAll (c.verifyAndApply C d (actProof C bs c d a)).journal)
   | reopen (c : Core) (d : Disk) (c' : Core) (j : List SOp) : Reach C bs pk fork (c, d) → openCore C none d = .ok (c', j) →
       Reach C bs pk fork (c', d.applyAll j)
-  | crash (c : Core) (d : Disk) (a : Act) (k : Nat) (c' : Core) (j : List SOp) : Reach C bs pk fork (c, d) →
+  | crash (c : Core) (d : Disk) (a : Act) (k : Nat) (c' : Core) (j : List SOp) : Reach C bs pk fork (c, d) → 0 < c.tree.length →
       OkActs C bs pk fork c.tree.length [a] →
       openCore C none (d.applyAll ((c.verifyAndApply C d (actProof C bs c d a)).journal.take k)) = .ok (c', j) →
       Reach C bs pk fork (c', (d.applyAll ((c.verifyAndApply C d (actProof C bs c d a)).journal.take k)).applyAll j)
 
 /-- **every reachable state satisfies the replica invariant and the ghost invariant** -/
 theorem reach_rp (C : Crypto) (hC : HashWF C) (hT : TreeWF C) (bs : Array Bytes) (pk : Bytes) (fork : Nat) (s : Core × Disk)
-    (h : Reach C bs pk fork s) : ∃ m held, RP C bs m s.1 s.2 held ∧ 0 < m ∧ s.1.publicKey = pk ∧ s.1.tree.fork = fork := by
+    (h : Reach C bs pk fork s) : ∃ m held, RP C bs m s.1 s.2 held ∧ s.1.publicKey = pk ∧ s.1.tree.fork = fork := by
   induction h with
-  | start c d m held hrp hm hpk hfk => exact ⟨m, held, hrp, hm, hpk, hfk⟩
-  | act c d a _ hok ih =>
-    obtain ⟨m, held, hrp, hm, hpk, hfk⟩ := ih
+  | start c d m held hrp hpk hfk => exact ⟨m, held, hrp, hpk, hfk⟩
+  | first c d n sig _ hlen0 h0 hn hsl hver ih =>
+    obtain ⟨m, held, hrp, hpk, hfk⟩ := ih
     have hlen : c.tree.length = m := hrp.rep.closed.sparse.length
     simp only at hpk hfk
+    have hm : m = 0 := by omega
+    subst hm
+    rw [← hpk, ← hfk] at hver
+    obtain ⟨rfl, c1, e, j0, hk⟩ := first_ok0 C hC hT bs c d held hrp n h0 hn sig hsl hver
+    obtain ⟨_, r2, r3, r4⟩ := rp_of_ok C bs 0 n c c1 d _ _ _ e j0 hrp hk
+    exact ⟨_, _, r2, by rw [r3, hpk], by rw [r4, hfk]⟩
+  | crashFirst c d n sig k c' j _ hlen0 h0 hn hsl hver hopen ih =>
+    obtain ⟨m, held, hrp, hpk, hfk⟩ := ih
+    have hlen : c.tree.length = m := hrp.rep.closed.sparse.length
+    simp only at hpk hfk
+    have hm : m = 0 := by omega
+    subst hm
+    rw [← hpk, ← hfk] at hver
+    obtain ⟨rfl, c1, e, j0, hk⟩ := first_ok0 C hC hT bs c d held hrp n h0 hn sig hsl hver
+    obtain ⟨c2, j2, r1, r2, r3, r4⟩ := crash_recover C bs 0 n c c1 d _ _ _ e j0 hrp hk k
+    rw [hopen] at r1
+    have := Except.ok.inj r1
+    simp only [Prod.mk.injEq] at this
+    obtain ⟨rfl, rfl⟩ := this
+    rcases r4 with r4 | r4
+    · exact ⟨_, _, r4, by rw [r2]; exact hpk, by rw [r3]; exact hfk⟩
+    · exact ⟨_, _, r4, by rw [r2]; exact hpk, by rw [r3]; exact hfk⟩
+  | act c d a _ hm0 hok ih =>
+    obtain ⟨m, held, hrp, hpk, hfk⟩ := ih
+    have hlen : c.tree.length = m := hrp.rep.closed.sparse.length
+    simp only at hpk hfk
+    rw [hlen] at hm0
     rw [hlen, ← hpk, ← hfk] at hok
-    obtain ⟨c1, e, j0, hk⟩ := act_ok C hC hT bs m c d held hrp hm a hok
+    obtain ⟨c1, e, j0, hk⟩ := act_ok C hC hT bs m c d held hrp hm0 a hok
     obtain ⟨_, r2, r3, r4⟩ := rp_of_ok C bs m _ c c1 d held _ _ e j0 hrp hk
-    refine ⟨_, _, r2, ?_, by rw [r3, hpk], by rw [r4, hfk]⟩
-    cases a with
-    | grow n us sig => simp only [lenAfter]; have := hok.1; omega
-    | fetch i => exact hm
-    | hash d0 o0 => exact hm
+    exact ⟨_, _, r2, by rw [r3, hpk], by rw [r4, hfk]⟩
   | reopen c d c' j _ hopen ih =>
-    obtain ⟨m, held, hrp, hm, hpk, hfk⟩ := ih
+    obtain ⟨m, held, hrp, hpk, hfk⟩ := ih
     obtain ⟨c2, e1, e2, e3, e4⟩ := rp_reopen C bs m c d held hrp
     rw [hopen] at e1
     have := Except.ok.inj e1
     simp only [Prod.mk.injEq] at this
     obtain ⟨rfl, rfl⟩ := this
-    exact ⟨m, held, e2, hm, by rw [e3]; exact hpk, by rw [e4]; exact hfk⟩
-  | crash c d a k c' j _ hok hopen ih =>
-    obtain ⟨m, held, hrp, hm, hpk, hfk⟩ := ih
+    exact ⟨m, held, e2, by rw [e3]; exact hpk, by rw [e4]; exact hfk⟩
+  | crash c d a k c' j _ hm0 hok hopen ih =>
+    obtain ⟨m, held, hrp, hpk, hfk⟩ := ih
     have hlen : c.tree.length = m := hrp.rep.closed.sparse.length
     simp only at hpk hfk
+    rw [hlen] at hm0
     rw [hlen, ← hpk, ← hfk] at hok
-    obtain ⟨c1, e, j0, hk⟩ := act_ok C hC hT bs m c d held hrp hm a hok
+    obtain ⟨c1, e, j0, hk⟩ := act_ok C hC hT bs m c d held hrp hm0 a hok
     obtain ⟨c2, j2, r1, r2, r3, r4⟩ := crash_recover C bs m _ c c1 d held _ _ e j0 hrp hk k
     rw [hopen] at r1
     have := Except.ok.inj r1
     simp only [Prod.mk.injEq] at this
     obtain ⟨rfl, rfl⟩ := this
     rcases r4 with r4 | r4
-    · exact ⟨m, held, r4, hm, by rw [r2]; exact hpk, by rw [r3]; exact hfk⟩
-    · refine ⟨_, _, r4, ?_, by rw [r2]; exact hpk, by rw [r3]; exact hfk⟩
-      cases a with
-      | grow n us sig => simp only [lenAfter]; have := hok.1; omega
-      | fetch i => exact hm
-      | hash d0 o0 => exact hm
+    · exact ⟨m, held, r4, by rw [r2]; exact hpk, by rw [r3]; exact hfk⟩
+    · exact ⟨_, _, r4, by rw [r2]; exact hpk, by rw [r3]; exact hfk⟩
 
 end HC.ReplicaCrash
